@@ -80,6 +80,9 @@ type Step struct {
 	Now    int64  `json:"now,omitempty"`
 	Burst  int    `json:"burst,omitempty"`
 	Gate   int    `json:"gate,omitempty"`
+	// IdleMS: the client stays idle for at least this long (the subscriber being
+	// quiescent) before the step is executed.  A no-op for the model.
+	IdleMS int `json:"idle_ms,omitempty"`
 }
 
 type Req struct {
@@ -130,6 +133,12 @@ type Case struct {
 	User    *string  `json:"user,omitempty"`
 	Req     *Req     `json:"req,omitempty"`
 	Ops     []Step   `json:"ops"`
+	// TimeoutMS > 0: the server is built with subscribe.WithTimeout (the send
+	// timeout; armed only while a Send is in progress, so idle gaps longer than
+	// it must not matter).  IdleEndMS: idle gap before the client ends the
+	// script (EOF / cancel).
+	TimeoutMS int `json:"timeout_ms,omitempty"`
+	IdleEndMS int `json:"idle_end_ms,omitempty"`
 	// observations
 	R1 *Run `json:"run,omitempty"`
 	R2 *Run `json:"run_noacl,omitempty"`
@@ -527,6 +536,9 @@ func runScript(c *Case, withACL bool) *Run {
 	if withACL && c.HasACL {
 		opts = append(opts, subscribe.WithACL(&fakeACL{rows: c.ACL}))
 	}
+	if c.TimeoutMS > 0 {
+		opts = append(opts, subscribe.WithTimeout(time.Duration(c.TimeoutMS)*time.Millisecond))
+	}
 	srv, _ := subscribe.NewServer(ca, opts...)
 	ca.SetClient(srv.Update)
 
@@ -648,6 +660,9 @@ func runScript(c *Case, withACL bool) *Run {
 			i = j
 			continue
 		}
+		if op.IdleMS > 0 && started {
+			time.Sleep(time.Duration(op.IdleMS) * time.Millisecond) // a lower bound is all that matters
+		}
 		ob := OObs{CRes: "ok"}
 		switch op.K {
 		case "update", "remove":
@@ -677,6 +692,9 @@ func runScript(c *Case, withACL bool) *Run {
 	}
 	// end of script: close the request stream (EOF for a poller), then cancel
 	if started {
+		if c.IdleEndMS > 0 {
+			time.Sleep(time.Duration(c.IdleEndMS) * time.Millisecond)
+		}
 		if !closedReqs {
 			close(st.reqs)
 		}
